@@ -54,7 +54,7 @@ Section R.
   Notation sample_line := (om_sample_line legacy guard_fix fix_nhkeys fix_nhsfx fix_tsmix fix_isnan fix_quote fix_tsexp fix_sname
                       NUM parse_num parse_float parse_int num_lt num_eqb num_isinf num_integral num_huge
                       num_zero num_one num_inf ts_float is_word is_space_re is_digit_re).
-  Notation enter_family := (om_enter_family legacy guard_fix fix_sname NUM parse_float num_lt num_eqb num_zero num_inf).
+  Notation enter_family := (om_enter_family legacy guard_fix fix_nhsfx fix_sname NUM parse_float num_lt num_eqb num_zero num_inf).
   Notation implicit_name := (om_implicit_name guard_fix fix_sname NUM).
   Notation group_step := (om_group_step fix_tsmix NUM num_lt num_eqb ts_float).
   Notation read_sample := (om_read_sample legacy guard_fix fix_nhkeys fix_nhsfx fix_quote fix_tsexp fix_sname NUM parse_num parse_float
@@ -203,10 +203,11 @@ Section R.
     \/ (st' = st /\ out = []).
   Proof.
     unfold om_enter_family. intro H.
-    destruct (negb (mem_str (os_name s) (st_allowed st)) && negb b) eqn:C.
-    - apply bind_ok in H as ([fams seen'] & Hf & H). apply bind_ok in H as (cand & Hu & H).
+    destruct (negb (mem_str (os_name s) (st_allowed st)) && negb (b && _)) eqn:C.
+    - destruct b; [discriminate|].
+      apply bind_ok in H as ([fams seen'] & Hf & H). apply bind_ok in H as (cand & Hu & H).
       inversion H; subst st' out; clear H. left. exists fams, seen', cand. cbn.
-      apply andb_true_iff in C as [C1 C2]. apply negb_true_iff in C1, C2. repeat split; eauto.
+      apply andb_true_iff in C as [C1 _]. apply negb_true_iff in C1. repeat split; eauto.
     - inversion H; subst. right. auto.
   Qed.
 
@@ -1597,14 +1598,61 @@ Section R.
     eapply timestamps_two_lines_document; eassumption.
   Qed.
 
-  (* a sample whose name the family in progress (not a histogram) does not allow is never attached to it: the family is
-     closed - its closing checks run - and the sample starts an unknown family of its own name *)
-  Lemma foreign_sample_switches_family st line s nh st' out :
-    om_typ_is (st_typ st) OM_histogram = false -> read_sample (st_typ st) line = Ok (s, nh) ->
-    mem_str (os_name s) (st_allowed st) = false -> sample_line st line = Ok (st', out) ->
-    st_allowed st' = [os_name s] /\ st_typ st' = Some OM_unknown /\ exists seen', flush st = Ok (out, seen').
+  (* a sample whose name the family in progress does not allow is never attached to it: the family is closed - its closing
+     checks run - and the sample starts an unknown family of its own name.  In every family that is not a histogram,
+     for every setting of the flags; in the repaired source (fix_nhsfx, fixes/C15-om-native-foreign-name.diff) also in a
+     histogram family, as soon as the sample does not carry the family's own name (a native-histogram sample named like
+     the family is the one exemption; the pinned source exempted every native sample). *)
+  Lemma opt_str_neq (o : option str) x : o <> Some x -> om_opt_str_eqb o x = false.
   Proof.
-    intros Ht Hr Hm H. pose proof (read_sample_flag _ _ _ _ Ht Hr) as ->.
+    intro N. destruct o as [y|]; [|reflexivity]. unfold om_opt_str_eqb. apply str_eqb_neq. intro E. apply N. congruence.
+  Qed.
+
+  (* repaired source: a native-histogram sample of a foreign name is rejected *)
+  Lemma foreign_native_sample_rejected st line s :
+    fix_nhsfx = true -> read_sample (st_typ st) line = Ok (s, true) ->
+    mem_str (os_name s) (st_allowed st) = false -> st_name st <> Some (os_name s) ->
+    is_err (sample_line st line).
+  Proof.
+    intros Hfix Hr Hm Hn. unfold om_sample_line. rewrite Hr. cbn [bind]. apply is_err_bind_l.
+    unfold om_enter_family. rewrite Hm, Hfix, (opt_str_neq _ _ Hn). cbn [negb andb orb]. eexists. reflexivity.
+  Qed.
+
+  Lemma foreign_native_sample_document pre l post st acc s :
+    fix_nhsfx = true -> prefix st0 pre [] = Ok (st, acc) ->
+    is_sample_line l = true -> read_sample (st_typ st) l = Ok (s, true) ->
+    mem_str (os_name s) (st_allowed st) = false -> st_name st <> Some (os_name s) ->
+    is_err (run st0 (pre ++ l :: post) []).
+  Proof.
+    intros Hfix E L R M N. rewrite run_app, E. cbn [bind om_run_lines]. apply is_err_bind_l.
+    apply step_err_sample; [exact L|]. eapply foreign_native_sample_rejected; eassumption.
+  Qed.
+
+  (* ... so in the repaired source an attached native-histogram sample carries the name of the family in progress
+     (or one of its allowed names) *)
+  Lemma native_sample_attached_own_name st line s st' out :
+    fix_nhsfx = true -> read_sample (st_typ st) line = Ok (s, true) -> sample_line st line = Ok (st', out) ->
+    st_name st = Some (os_name s) \/ mem_str (os_name s) (st_allowed st) = true.
+  Proof.
+    intros Hfix Hr H. destruct (mem_str (os_name s) (st_allowed st)) eqn:Hm; [right; reflexivity|]. left.
+    destruct (om_opt_str_eqb (st_name st) (os_name s)) eqn:E.
+    - destruct (st_name st) as [n|]; [|discriminate]. unfold om_opt_str_eqb in E. apply str_eqb_eq in E. congruence.
+    - exfalso. eapply is_err_not_ok; [|exact H]. apply (foreign_native_sample_rejected st line s Hfix Hr Hm).
+      intro X. rewrite X in E. unfold om_opt_str_eqb in E. rewrite str_eqb_refl in E. discriminate.
+  Qed.
+
+  Lemma foreign_sample_switches_family st line s nh st' out :
+    om_typ_is (st_typ st) OM_histogram = false \/ (fix_nhsfx = true /\ st_name st <> Some (os_name s)) ->
+    read_sample (st_typ st) line = Ok (s, nh) ->
+    mem_str (os_name s) (st_allowed st) = false -> sample_line st line = Ok (st', out) ->
+    st_allowed st' = [os_name s] /\ st_typ st' = Some OM_unknown /\ (exists seen', flush st = Ok (out, seen')) /\ nh = false.
+  Proof.
+    intros Hc Hr Hm H.
+    assert (Hnh : nh = false).
+    { destruct Hc as [Ht|[Hfix Hn]]; [exact (read_sample_flag _ _ _ _ Ht Hr)|].
+      destruct nh; [|reflexivity]. exfalso. eapply is_err_not_ok; [|exact H].
+      eapply foreign_native_sample_rejected; eassumption. }
+    subst nh.
     unfold om_sample_line in H. rewrite Hr in H. cbn [bind] in H.
     unfold om_enter_family in H. rewrite Hm in H. cbn [negb andb] in H.
     apply bind_ok in H as ([st1 out1] & He & H).
